@@ -5,10 +5,12 @@
    sources leave open) is chosen in TraceInit among the fields that can matter for this
    trace; the trace is accepted iff SOME policy explains every event.
    Hard clauses: Outcome, Content, ErrFile, IncludeRefusal; CheckLines adds ErrLine (the
-   line number in the message - not promised anywhere, judged for the drift counter only). *)
+   line number in the message - not promised anywhere, judged for the drift counter only).
+   Pinned = TRUE admits only PolA (the reading the pinned dnspython was seen to take): used to
+   MEASURE that reading (evidence), never for a verdict. *)
 EXTENDS ZoneReader, VTrace
 
-CONSTANT CheckLines
+CONSTANTS CheckLines, Pinned
 VARIABLES t, l
 tvars == <<vars, t, l>>
 
@@ -26,7 +28,7 @@ Relevant(tr) ==
 TraceInit == /\ RegInit
              /\ t \in 1..NTraces
              /\ l = 1
-             /\ \E p \in PoliciesOver(Relevant(Log[t])) : InitWith(Log[t].cfg, p)
+             /\ \E p \in (IF Pinned THEN {PolA} ELSE PoliciesOver(Relevant(Log[t]))) : InitWith(Log[t].cfg, p)
 
 \* the refusal the docstring names: "encountering a $INCLUDE will raise a SyntaxError"
 IncRefused(e) == status = "ok" /\ e.k = "inc" /\ ~DirAllowed(cfg, "$INCLUDE", pol)
